@@ -11,7 +11,11 @@ Beyond the (spec, value) grid the failing-input search covers
  * delivery channels and binding contexts of a by-name insertion (keyword, client attribute, mapping, the mapping's
    taintWrapper() hook, constructor defaults, dtml-let / with / in / if / try, sub-templates, a tag used twice);
  * histories: the same compiled template rendered first with the equal but unmarked text;
- * tainted byte strings.
+ * tainted byte strings;
+ * the whole fmt= dispatch (every key of the library's format table incl. the markup formats structured-text /
+   restructured-text, every method name, misspelt names) x every carrier of a marked value (direct str / bytes mark,
+   callable, absolute_url() under `url`, method of an object), with an independent markup reference for the formats that
+   build HTML around the value.
 """
 import html as _html
 import itertools
@@ -77,8 +81,8 @@ def raw_lt(spec, value, out):
     return True
 
 
-def oracle(spec, value, impl):
-    """returns (failures, known-finding id or None)"""
+def oracle(spec, value, impl, once=True):
+    """returns (failures, known-finding id or None); once=False: only "no raw '<'" is asked, not "escaped once"."""
     if value['kind'] != 'str' or not value['t']:
         return [], None
     if impl[0] != 'out':
@@ -90,11 +94,11 @@ def oracle(spec, value, impl):
     if '<' not in lit and raw_lt(spec, value, out):
         if requote_combo(spec):
             known = 'C04-requote'
-        elif spec.get('fmt') in ('casefold', 'format', '__str__'):
+        elif spec.get('fmt') in UNWRAPPED_METHOD_FORMATS:
             known = 'C04-method-format'
         else:
             bad.append('tainted value %r reaches the output with a raw "<": %r' % (value['s'], out))
-    if '&' not in value['s'] and ('&amp;lt;' in out or '&amp;amp;' in out) and \
+    if once and '&' not in value['s'] and ('&amp;lt;' in out or '&amp;amp;' in out) and \
             'url_quote' not in spec['written']:
         if spec.get('fmt') == 'multi-line' and 'html_quote' in spec['written']:
             known = known or 'C04-multiline-then-html_quote'
@@ -470,6 +474,395 @@ def ctx_oracle(c, impl):
 
 
 # ---------------------------------------------------------------------------------------------
+# the whole fmt= dispatch x every carrier of a marked value.  Oracle only: the markup formats, method formats of
+# objects, the url option and callables are outside the Lean model, so none of these cases is sent to the driver.
+#
+# fmt=NAME is dispatched three ways by the tag (DT_Var docstring): a method of the value called NAME is called, a name of
+# the special-format table is applied, anything else is a %-format string.  The (spec, value) grid above draws NAME from
+# the 13 formats the model knows; here NAME ranges over
+#   * every key of the library's special_formats table as it is at run time, united with the documented names (so a
+#     format that is added, renamed or that the model does not cover is exercised: structured-text and
+#     restructured-text, which build HTML markup around the value, are such formats),
+#   * every public attribute name of str / bytes and of the two mark classes (method formats),
+#   * misspellings of table names (they are %-format strings without a conversion);
+# and the marked value reaches the tag on every carrier: given directly (TaintedString / TaintedBytes), returned by a
+# callable that the name lookup calls, returned by absolute_url() under the `url` option, returned by the method that a
+# method format calls on an ordinary object, returned by read_raw() of an object with a DTML meta_type (where the markup
+# formats take their text from).  Binding contexts, the four syntaxes, C-style codes, later modifiers,
+# size/etc, null/missing and the "equal unmarked text first" history are combined with them at random.
+#
+# Many of these cases raise in the unchanged library (a mark is neither a str nor a DTML object for the markup
+# formats, has no absolute_url, ...): an exception inserts nothing.  They are generated all the same, because "make
+# it not raise" is exactly the kind of edit that turns a dead end into an unescaped insertion.
+
+DOC_FORMATS = ['whole-dollars', 'dollars-and-cents', 'collection-length', 'structured-text', 'restructured-text',
+               'sql-quote', 'html-quote', 'url-quote', 'url-quote-plus', 'url-unquote', 'url-unquote-plus', 'multi-line',
+               'comma-numeric', 'dollars-with-commas', 'dollars-and-cents-with-commas']
+MARKUP_FORMATS = ('structured-text', 'restructured-text')
+NEAR_FORMATS = ['structured_text', 'Structured-Text', 'STRUCTURED-TEXT', 'restructuredtext', 'html_quote', 'stx']
+# the mark's own escaping API is not a str method: asking for it and for html_quote asks for two escapes
+NOT_METHOD_FORMATS = ('quoted',)
+# C04-method-format: str / bytes methods the mark class does not wrap
+UNWRAPPED_METHOD_FORMATS = ('casefold', 'format', '__str__', 'rsplit')
+# C04-requote-list-format: method formats the mark wraps into lists of marks; the list's text form escapes them
+LIST_METHOD_FORMATS = ('split', 'splitlines')
+STRUCT_BASES = ['plain words here', 'Heading\n\n  body text under the heading', 'one paragraph\n\nanother paragraph',
+                '* item one\n\n* item two', 'an *emphasised* and a **strong** word', '"a link":http://example.com/a',
+                "some 'inline code' here", 'example::\n\n  literal block', '1. first\n\n2. second',
+                'term -- its definition', '_underlined_ and a_b', 'see ref_ and `role` and |sub|',
+                'Title\n=====\n\ntext', 'a\nb', '  indented', '']
+MARKS = ['<', '<', '<b>', '<script>x</script>', '</p>', '<!--', '<img src=x onerror=y>', '< ', '<<']
+CARRIERS = ['direct', 'callable', 'url', 'method', 'dtml-object']
+TABLE_CONTEXTS = ['keyword', 'keyword', 'client', 'mapping', 'constructor-keyword', 'let-name', 'let-expr',
+                  'with-object', 'with-mapping', 'in-objects', 'in-item', 'in-prefix', 'if-cached', 'try', 'twice']
+TAG = re.compile(r'<[^<>]*>')
+# what a library that does format a marked text may have made of its '<' before formatting
+NEUTRALS = ['ᐸ', '&lt;', 'LT', '']
+
+
+def format_names():
+    from DocumentTemplate import DT_Var
+    return sorted(set(DOC_FORMATS) | set(getattr(DT_Var, 'special_formats', {})))
+
+
+def method_names():
+    from AccessControl.tainted import TaintedBytes, TaintedString
+    names = set()
+    for k in (str, bytes, TaintedString, TaintedBytes):
+        names |= {n for n in dir(k) if not n.startswith('_')}
+    return sorted(names - set(NOT_METHOD_FORMATS))
+
+
+class Carrier:
+    """an ordinary object that hands the marked value out through a method"""
+
+    def __init__(self, v):
+        self._v = v
+
+    def absolute_url(self):
+        return self._v
+
+    def hello(self):
+        return self._v
+
+    def __repr__(self):
+        return 'Carrier()'
+
+
+class SourceCarrier:
+    """what the markup formats take their text from when the value is not a string: an object that says it is a DTML
+    Method / Document and hands its raw source out (here: the marked value)"""
+
+    def __init__(self, v, meta_type):
+        self._v, self.meta_type = v, meta_type
+
+    def read_raw(self):
+        return self._v
+
+    def __str__(self):
+        return 'SourceCarrier'
+
+
+_refs = {}
+
+
+def ref_markup(fmt, text):
+    """the markup the formatter itself makes for `text`: the third-party formatter called directly"""
+    key = (fmt, text)
+    if key not in _refs:
+        import contextlib
+        import io
+        try:
+            with contextlib.redirect_stderr(io.StringIO()):
+                if fmt == 'structured-text':
+                    import zope.structuredtext
+                    out = zope.structuredtext.stx2html(text, level=3, header=0)
+                else:
+                    from docutils.core import publish_parts
+                    out = publish_parts(text, writer_name='html',
+                                        settings_overrides={'file_insertion_enabled': False, 'raw_enabled': False})['whole']
+        except Exception:  # noqa
+            out = None
+        if len(_refs) > 4000:
+            _refs.clear()
+        _refs[key] = out
+    return _refs[key]
+
+
+def norm_markup(s):
+    """what later modifiers (case, spacify, thousands_commas, sql_quote, newline_to_br) can do to a tag is undone"""
+    s = re.sub(r'[_ ,\'\r\n\x00\x1a]', '', s.lower()).replace('<br/>', '')
+    return re.sub(r'<(/?)h\d', r'<\1h#', s)
+
+
+def unexplained_lt(spec, out, tokens):
+    """number of '<' of `out` that are not the formatter's tags `tokens` (in their order)"""
+    o, pos, rest = norm_markup(out), 0, []
+    toks = [norm_markup(t) for t in tokens]
+    left = []
+    for t in toks:
+        i = o.find(t, pos)
+        if i < 0:
+            left.append(t)
+            continue
+        rest.append(o[pos:i])
+        pos = i + len(t)
+    rest = ''.join(rest) + o[pos:]
+    n = rest.count('<')
+    if n == 1:
+        # truncation (size=, a C-style precision) may cut the formatter's last tag in two; what is left of it sits at
+        # the end, before `etc`
+        etc = norm_markup(spec.get('etc') if spec.get('etc') is not None else '...')
+        tail = rest[rest.rfind('<'):]
+        if etc and tail.endswith(etc):
+            tail = tail[:-len(etc)]
+        if any(t.startswith(tail) for t in left + ['<br/>']):
+            return 0
+    return n
+
+
+def markup_leak(spec, text, out):
+    """-> None, or why `out` has a '<' that the formatter's own markup does not account for.  The markup is the one
+    the formatter makes for the text with every '<' made harmless beforehand (each way of NEUTRALS; a formatter that
+    escapes its input itself -- docutils -- also for the text as it is)."""
+    fmt = spec['fmt']
+    variants = [_html.escape(text, True), _html.escape(text, False)] + [text.replace('<', n) for n in NEUTRALS]
+    if fmt == 'restructured-text':
+        variants.append(text)
+    best = None
+    for v in variants:
+        ref = ref_markup(fmt, v)
+        if ref is None:
+            continue
+        n = unexplained_lt(spec, out, TAG.findall(ref))
+        if n == 0:
+            return None
+        best = n if best is None else min(best, n)
+    if best is None:
+        return None if '<' not in BR.sub('', out) else 'the reference formatter refuses the text, yet %r came out' % out[:200]
+    return '%d "<" beyond the markup of fmt=%s in %r' % (best, fmt, out[:300] if len(out) < 600 else out[-300:])
+
+
+def table_value(c, marked):
+    from AccessControl.tainted import TaintedBytes, TaintedString
+    if c['mark'] == 'bytes':
+        v = c['s'].encode('utf-8')
+        v = TaintedBytes(v) if marked else v
+    else:
+        v = TaintedString(c['s']) if marked else c['s']
+    if c['carrier'] == 'callable':
+        return lambda: v
+    if c['carrier'] in ('url', 'method'):
+        return Carrier(v)
+    if c['carrier'] == 'dtml-object':
+        return SourceCarrier(v, 'DTML Method' if len(c['s']) % 2 else 'DTML Document')
+    return v
+
+
+def table_spec(c):
+    """the options as written in the tag: the carrier's own option is added to the spec of the case"""
+    sp = dict(c['spec'])
+    if c['carrier'] == 'url':
+        sp['written'] = ['url'] + list(sp['written'])
+    elif c['carrier'] == 'method':
+        sp['fmt'] = 'hello'
+    return sp
+
+
+def table_source(c):
+    wrap, name, how = CONTEXTS[c['ctx']]
+    kind, tag = tag_named(table_spec(c), c['syntax'], c['by_expr'], name)
+    if c['carrier'] == 'callable' and c['by_expr']:
+        tag = tag.replace('expr="x"', 'expr="x()"', 1)     # an expression does not call what it names
+    return kind, wrap.replace('{T}', tag), tag, how
+
+
+def run_table_case(c):
+    try:
+        kind, src, tag, how = table_source(c)
+        varpipe.template(kind, src)
+    except Exception as e:  # noqa
+        return ('compile-err', type(e).__name__ + ': ' + str(e)[:100]), c.get('src', '')
+    import contextlib
+    import io
+    if c.get('twin'):
+        try:
+            with contextlib.redirect_stderr(io.StringIO()):     # docutils reports problems of the text there
+                ctx_call(kind, src, tag, how, table_value(c, False))
+        except Exception:  # noqa
+            pass
+    try:
+        with contextlib.redirect_stderr(io.StringIO()):
+            out = ctx_call(kind, src, tag, how, table_value(c, True))
+    except Exception as e:  # noqa
+        return ('err', type(e).__name__), src
+    if isinstance(out, bytes):
+        return ('out', out.decode('latin-1')), src
+    if not isinstance(out, str):
+        return ('out-nonstr', repr(out)), src
+    return ('out', out), src
+
+
+def plain_method_result(c):
+    """what the method format denotes by plain Python on the plain value ('?' when it cannot be called like that)"""
+    fmt = c['spec'].get('fmt')
+    plain = c['s'].encode('utf-8') if c['mark'] == 'bytes' else c['s']
+    if fmt is None or fmt.startswith('_') and fmt != '__str__' or not hasattr(plain, fmt):
+        return None
+    try:
+        return getattr(plain, fmt)()
+    except Exception:  # noqa
+        return '?'
+
+
+def table_oracle(c, impl):
+    """-> (failures, known id, class of the case)"""
+    if impl[0] != 'out':
+        return [], None, impl[0]
+    spec, out = c['spec'], impl[1]
+    if c['ctx'] == 'twice':
+        mid = len(out) // 2
+        out = out[:mid] if len(out) % 2 == 1 and out[mid] == '|' and out[:mid] == out[mid + 1:] else out.replace('|', '')
+    if c['ctx'] == 'try' and out == 'E':
+        return [], None, 'err'
+    if spec.get('fmt') in MARKUP_FORMATS:
+        why = markup_leak(spec, c['s'], out)
+        return ([why] if why else []), None, 'markup-format'
+    value = {'kind': 'str', 's': c['s'], 't': True}
+    res = plain_method_result(c)
+    if c['mark'] == 'str' and (res is None or isinstance(res, str)):
+        bad, known = oracle(spec, value, ('out', out))
+        return bad, known, 'text'
+    # byte strings and method formats that do not denote a text: only "no raw '<'" applies
+    bad, known = oracle(spec, value, ('out', out), once=False)
+    return bad, known, 'bytes' if c['mark'] == 'bytes' else 'non-text'
+
+
+def marked_text(r, bases):
+    b = r.choice(bases)
+    k = r.randint(0, len(b))
+    return b[:k] + r.choice(MARKS) + b[k:]
+
+
+def table_case(r, fmt, carrier=None, mark=None, syn=None, plain=False):
+    """one case around the format `fmt` (None: no fmt=); plain: no other option, keyword delivery, no history"""
+    carrier = carrier or r.choice(CARRIERS)
+    if plain:
+        sp = {'written': []}
+    else:
+        sp = rand_spec(r, ['%s'])
+        sp.pop('fmt', None)
+    if fmt is not None and carrier != 'method':
+        sp['fmt'] = fmt
+    if carrier == 'dtml-object' and sp.get('fmt') not in MARKUP_FORMATS:
+        carrier = 'direct'      # only the markup formats read the source of such an object
+    if sp.get('fmt') in MARKUP_FORMATS + LIST_METHOD_FORMATS:
+        # a formatter that escapes its input is a quoting stage: unquoting after it is the class of C04-requote.  So
+        # is the text form of a list of marks (finding C04-requote-list-format, replayed by findings_probe.py)
+        sp['written'] = [m for m in sp['written'] if m not in UNQUOTERS]
+    syn = syn or r.choice(['dtml', 'dtml', 'ssi', 'epfs'])
+    if syn == 'epfs' and not plain and r.random() < 0.3:
+        sp['cfmt'] = r.choice(['20s', '.60s', '3s', '5.200s'])
+    ctx = 'keyword' if plain or carrier == 'callable' else r.choice(TABLE_CONTEXTS)
+    if syn == 'epfs' and ctx not in EPFS_CONTEXTS:
+        syn = 'dtml'
+    markup = sp.get('fmt') in MARKUP_FORMATS or r.random() < 0.3
+    return {'input_class': 'format-table', 'carrier': carrier, 'mark': mark or r.choice(['str', 'str', 'bytes']),
+            's': marked_text(r, STRUCT_BASES if markup else BASES), 'spec': sp, 'syntax': syn,
+            'by_expr': r.random() < 0.3, 'ctx': ctx, 'twin': not plain and r.random() < 0.4}
+
+
+def gen_table_cases(r, tier):
+    table, methods = format_names(), method_names()
+    names = table + methods + NEAR_FORMATS
+    cases = []
+    # systematic: every name of the fmt= dispatch, option-free, on every mark class and in both template classes; every
+    # carrier with every table format; the markup formats on every structured text with a mark at both ends
+    for f in names:
+        for mark in ('str', 'bytes'):
+            for syn in ('dtml', 'epfs'):
+                cases.append(table_case(r, f, 'direct', mark, syn, plain=True))
+    for f in table + [None]:
+        for carrier in CARRIERS:
+            for mark in ('str', 'bytes'):
+                cases.append(table_case(r, f, carrier, mark, plain=True))
+    for f in MARKUP_FORMATS:
+        for b in STRUCT_BASES:
+            for mark in ('str', 'bytes'):
+                for s in ('<b>' + b, b + '<b>'):
+                    c = table_case(r, f, 'direct', mark, 'dtml', plain=True)
+                    c['s'] = s
+                    cases.append(c)
+    if tier == 'thorough':
+        for f in MARKUP_FORMATS:
+            for b in STRUCT_BASES:
+                for k in range(len(b) + 1):
+                    c = table_case(r, f)
+                    c['s'] = b[:k] + r.choice(MARKS) + b[k:]
+                    cases.append(c)
+    # random: formats of the table half of the time, markup formats a quarter, method / misspelt names and none else
+    for _ in range(5000 if tier == 'quick' else 60000):
+        k = r.random()
+        f = r.choice(table) if k < 0.45 else r.choice(MARKUP_FORMATS) if k < 0.7 else \
+            r.choice(methods + NEAR_FORMATS) if k < 0.9 else None
+        cases.append(table_case(r, f))
+    return cases
+
+
+def calibrate_markup(res):
+    """the reference formatter and the tag must agree on the markup of trusted text, else markup_leak means nothing"""
+    agree = disagree = 0
+    for f in MARKUP_FORMATS:
+        for b in STRUCT_BASES:
+            for v in (b, b.encode('utf-8')):
+                c = {'carrier': 'direct', 'mark': 'str', 's': b, 'spec': {'written': [], 'fmt': f}, 'syntax': 'dtml',
+                     'by_expr': False, 'ctx': 'keyword'}
+                kind, src, tag, how = table_source(c)
+                try:
+                    import contextlib
+                    import io
+                    with contextlib.redirect_stderr(io.StringIO()):
+                        out = ctx_call(kind, src, tag, how, v)
+                except Exception:  # noqa
+                    continue
+                res.evaluations += 1
+                if markup_leak(c['spec'], b, out) is None:
+                    agree += 1
+                else:
+                    disagree += 1
+                    res.extra.setdefault('markup_reference_disagrees', []).append({'fmt': f, 'text': b, 'out': out[-300:]})
+    res.extra['markup_reference_calibration'] = {'agree': agree, 'disagree': disagree}
+    res.count('markup_reference:agrees_on_trusted_text', agree)
+    res.count('markup_reference:disagrees_on_trusted_text', disagree)
+
+
+def run_table_cases(res, tier):
+    r = common.rng('C04-format-table')
+    res.extra['special_format_table'] = format_names()
+    res.extra['method_format_names'] = len(method_names())
+    calibrate_markup(res)
+    for c in gen_table_cases(r, tier):
+        impl, src = run_table_case(c)
+        c['src'] = src
+        res.evaluations += 1
+        res.count('table_carrier=' + c['carrier'] + '/' + c['mark'])
+        if c['twin']:
+            res.count('history=unmarked-equal-text-first')
+        bad, known, cls = table_oracle(c, impl)
+        res.count('table:' + cls)
+        if c['spec'].get('fmt') in MARKUP_FORMATS:
+            res.count('table_markup_format:' + ('renders' if cls == 'markup-format' else 'raises'))
+        if known:
+            res.known_hits.setdefault(known, {'spec': c['spec'], 'value': c['s'], 'src': src, 'out': impl[1]})
+            res.count('known:' + known)
+        for f in bad:
+            res.oracle_fail.append({'case': c, 'what': f})
+        if impl[0] == 'out':
+            res.nt(('table', c['carrier'], c['mark'], c['ctx'], src, c['s']))
+    res.sample({k: c[k] for k in ('carrier', 'mark', 's', 'spec', 'src', 'ctx')} | {'impl': impl})
+
+
+# ---------------------------------------------------------------------------------------------
 # tainted byte strings (AccessControl.tainted.TaintedBytes): the other marked value type
 
 def run_bytes_cases(res):
@@ -522,7 +915,20 @@ def run(res, tier, have_driver):
                 'sequence-key / sorted, dtml-if cache, else branch, sub-template, dtml-try, the tag twice), also '
                 'compared with the model.  HISTORIES: 40% of the context and expression cases first render the same '
                 'compiled template with the equal text without the mark.  TaintedBytes through every single modifier '
-                'and special format')
+                'and special format.  '
+                'FORMAT TABLE x CARRIERS (oracle only, outside the model): fmt= ranging over every key of the library\'s '
+                'special_formats table as found at run time united with the 15 documented names (incl. the markup formats '
+                'structured-text / restructured-text), every public attribute name of str / bytes / TaintedString / '
+                'TaintedBytes (method formats) and misspelt table names; the marked value (TaintedString or TaintedBytes, '
+                '"<", tags, comment openers at random positions of 16 structured texts: headings, paragraphs, lists, '
+                'emphasis, links, literal blocks, reST references / titles, and of the 12 base strings) given directly, '
+                'returned by a callable the name lookup calls, by absolute_url() under the url option, by the method a '
+                'method format calls on an ordinary object, by read_raw() of an object with a DTML meta_type; combined with later modifiers, size/etc, null/missing, C-style '
+                'widths / precisions, 4 syntaxes, name / expr, 13 binding contexts and the unmarked-first history.  Plain '
+                'formats: no raw "<" / escaped once as above.  Markup formats: every "<" of the output must be a tag that '
+                'the third-party formatter itself (zope.structuredtext.stx2html / docutils publish_parts, called '
+                'directly) makes for the text with its "<" made harmless beforehand; the reference is calibrated on '
+                'trusted text against the tag')
     specs = gen_specs(tier, r)
     positions = all_positions()
     cases = []
@@ -633,6 +1039,7 @@ def run(res, tier, have_driver):
             res.nt(('expr', c['src'], json.dumps(c['vals'], sort_keys=True)))
     res.sample({'expr': c['expr'], 'reference': c['ref'], 'src': c['src'], 'vals': c['vals'], 'impl': impl})
     run_bytes_cases(res)
+    run_table_cases(res, tier)
     if have_driver:
         resp = common.run_driver(reqs)
         oom = 0
@@ -685,6 +1092,10 @@ def replay(path):
         impl, src = run_ctx_case(c)
         bad, known = ctx_oracle(c, impl)
         print(src, c['ctx'], c['value'], impl, bad, known)
+    elif c.get('input_class') == 'format-table':
+        impl, src = run_table_case(c)
+        bad, known, cls = table_oracle(c, impl)
+        print(src, 'carrier=%s mark=%s ctx=%s' % (c['carrier'], c['mark'], c['ctx']), repr(c['s']), impl, cls, bad, known)
     elif c.get('input_class') == 'bytes':
         from AccessControl.tainted import TaintedBytes
         kind = 'epfs' if c['syntax'] == 'epfs' else 'html'
